@@ -29,7 +29,16 @@ enum Ans {
     TimedOut,
     UnexpectedEof,
     InvalidData,
+    /// any other kind of hard error (index into KINDS)
+    Kind(u8),
 }
+
+use std::io::ErrorKind as K;
+const KINDS: [(K, &str); 15] = [
+    (K::BrokenPipe, "BrokenPipe"), (K::ConnectionReset, "ConnectionReset"), (K::ConnectionAborted, "ConnectionAborted"), (K::ConnectionRefused, "ConnectionRefused"),
+    (K::NotConnected, "NotConnected"), (K::NotFound, "NotFound"), (K::PermissionDenied, "PermissionDenied"), (K::AddrInUse, "AddrInUse"), (K::AlreadyExists, "AlreadyExists"),
+    (K::InvalidInput, "InvalidInput"), (K::WriteZero, "WriteZero"), (K::Unsupported, "Unsupported"), (K::OutOfMemory, "OutOfMemory"), (K::AddrNotAvailable, "AddrNotAvailable"), (K::Other, "Other"),
+];
 
 impl Ans {
     fn json(&self) -> Value {
@@ -42,11 +51,14 @@ impl Ans {
             Ans::TimedOut => json!("TimedOut"),
             Ans::UnexpectedEof => json!("UnexpectedEof"),
             Ans::InvalidData => json!("InvalidData"),
+            Ans::Kind(k) => json!({"kind": KINDS[*k as usize].1}),
         }
     }
     fn from_json(v: &Value) -> Ans {
         if let Some(n) = v["bytes"].as_u64() {
             Ans::Bytes(n as usize)
+        } else if let Some(k) = v["kind"].as_str() {
+            Ans::Kind(KINDS.iter().position(|x| x.1 == k).unwrap_or(0) as u8)
         } else {
             match v.as_str() {
                 Some("EINTR") => Ans::Interrupted,
@@ -80,13 +92,14 @@ impl<'a> Read for Scripted<'a> {
         let remaining = self.data.len() - self.pos;
         let n = match a {
             Ans::Interrupted => return Err(std::io::Error::new(std::io::ErrorKind::Interrupted, "scripted EINTR")),
-            Ans::Error | Ans::WouldBlock | Ans::TimedOut | Ans::UnexpectedEof | Ans::InvalidData => {
+            Ans::Error | Ans::WouldBlock | Ans::TimedOut | Ans::UnexpectedEof | Ans::InvalidData | Ans::Kind(_) => {
                 self.error_delivered = true;
                 let kind = match a {
                     Ans::WouldBlock => std::io::ErrorKind::WouldBlock,
                     Ans::TimedOut => std::io::ErrorKind::TimedOut,
                     Ans::UnexpectedEof => std::io::ErrorKind::UnexpectedEof,
                     Ans::InvalidData => std::io::ErrorKind::InvalidData,
+                    Ans::Kind(k) => KINDS[k as usize].0,
                     _ => std::io::ErrorKind::Other,
                 };
                 return Err(std::io::Error::new(kind, "scripted I/O error"));
@@ -221,6 +234,7 @@ fn alternatives(data: &[u8], pos: usize, blen: usize, entry: Entry) -> Vec<Ans> 
     // the other error kinds only on small inputs (the code path does not depend on the data)
     if data.len() <= 16 {
         v.extend([Ans::WouldBlock, Ans::TimedOut, Ans::UnexpectedEof, Ans::InvalidData]);
+        v.extend((0..KINDS.len()).map(|k| Ans::Kind(k as u8)));
     }
     v
 }
